@@ -213,3 +213,21 @@ claim('C18', 'exploration',
       'read-back of the text field it directs.',
       'runtime monitoring: exhaustive short-string sweep with recount oracle and parser read-back differential under ASan/UBSan',
       'DESIGN.md section 4, C18')
+
+claim('C03', 'exploration',
+      'Inputs from the independent writer (CIF 2.0 / 1.1 layouts), the repository test data, defect-rich tails and token '
+      'soup, encoded as UTF-8 / UTF-16 / UTF-32 / Latin-1 with or without BOM and damaged by structure-aware mutation '
+      '(bit flips, control bytes, malformed UTF-8, surrogates, BOMs, span deletion / duplication / swap, truncation, '
+      'token splicing in other encodings, runs of up to a megabyte, line-terminator rewrites), each under a random option '
+      'vector (prefer_cif2, max_frame_depth, fold / prefix modifiers, extra whitespace / EOL sets, default encoding incl. '
+      'an unsupported one, forcing, handler present or not, target new / absent / pre-populated) in a family of runs on '
+      'the same bytes: all errors accepted (reference), default handler (must return the first reported code), n-th '
+      'error rejected with a caller code (must see exactly the first n errors and return that code), another read-chunk '
+      'size with the handler toggled (same errors), k-th read failing (defined non-zero result).  Every run: watchdog, '
+      'ASan/UBSan, result in the contract set, no failure without a reported error, line >= 1 and readable text in '
+      'every callback; afterwards the CIF is dumped, walked, written, modified and destroyed with the ledger balanced.',
+      'A loop left without packets makes cif_walk / cif_write return CIF_EMPTY_LOOP: accepted when the dump shows such a '
+      'loop.  Values nested more than 200 levels are not read back by the harness.  Known finding: unbounded recursion on '
+      'nesting depth (stack exhaustion).',
+      'runtime monitoring: mutation-based hostile workload with twin-run differential oracles under ASan/UBSan and a watchdog',
+      'DESIGN.md section 4, C03')
